@@ -103,6 +103,12 @@ def run(tier, seed, model):
                 camp.evaluations += 1
                 bound = 3 * len(data) + 3
                 status, r = guard.run(cfg, chunks, bound)
+                if status == "memory":
+                    # the long-lived worker has a limited address space that earlier giant rectangles may have used up:
+                    # only exhaustion in a FRESH worker says something about this input
+                    guard.restart()
+                    camp.count("worker-restarted-after-memory-error")
+                    status, r = guard.run(cfg, chunks, bound)
                 why = None
                 if status == "timeout":
                     why = "no return within 20 s (a handler or the expect loop does not end)"
@@ -121,6 +127,7 @@ def run(tier, seed, model):
                     # pixel expansion of a giant fill/raw rectangle (w*h pixels from a few bytes): what RFB
                     # means by a fill, excluded from the bound; the child's address space is limited
                     camp.count("excluded-pixel-expansion")
+                    guard.restart()
                     continue
                 camp.nontrivial.add((kind, data[:64], len(chunks)))
                 if tape is None:
